@@ -61,3 +61,40 @@ Print Assumptions C12_coincidence.
 Print Assumptions C12_atoms_truth_functional.
 Print Assumptions C12_qf_def.
 Print Assumptions C12_size_tree_def.
+
+(* ---- the case analysis of the model is the dispatch of the source (gen/Operators.v and gen/Dispatch.v are
+   REGENERATED from pysmt/operators.py and the walker classes on every run; qualified names only) *)
+From PySMT.gen Require Operators Dispatch.
+From PySMT.proofs Require Operators_proofs Dispatch_oracles_proofs.
+Theorem C12_operator_table_matches_source :
+  (forall n, List.In n Operators.all_node_types) /\
+  (forall a b, Operators.nt_id a = Operators.nt_id b -> a = b) /\
+  (forall o, Operators.nt_modelled (Operators.nt_of_op o) = true) /\
+  (forall n, Operators.nt_modelled n = false <-> n = Operators.NT_ALGEBRAIC_CONSTANT).
+Proof.
+  exact (conj Operators_proofs.all_node_types_complete (conj Operators_proofs.nt_id_injective
+         (conj Operators_proofs.nt_of_op_modelled Operators_proofs.only_algebraic_constant_unmodelled))).
+Qed.
+
+Theorem C12_qfo_dispatch_matches_source : forall o, exists h,
+  Dispatch_oracles_proofs.qfo_handler_of_name (Dispatch.qfo_dispatch (Operators.nt_of_op o)) = Some h /\
+  forall args, is_qf (T o args) = Dispatch_oracles_proofs.qfo_handler_rule h (map is_qf args).
+Proof. exact Dispatch_oracles_proofs.qfo_dispatch_matches_source. Qed.
+Theorem C12_fvo_dispatch_matches_source : forall o, exists h,
+  Dispatch_oracles_proofs.fvo_handler_of_name (Dispatch.fvo_dispatch (Operators.nt_of_op o)) = Some h /\
+  forall args, Some (fv (T o args)) = Dispatch_oracles_proofs.fvo_handler_rule h o (map fv args).
+Proof. exact Dispatch_oracles_proofs.fvo_dispatch_matches_source. Qed.
+Theorem C12_ao_dispatch_matches_source : forall o, exists h,
+  Dispatch_oracles_proofs.ao_handler_of_name (Dispatch.ao_dispatch (Operators.nt_of_op o)) = Some h /\
+  forall args, atoms (T o args) = Dispatch_oracles_proofs.ao_handler_rule h (T o args) (map atoms args).
+Proof. exact Dispatch_oracles_proofs.ao_dispatch_matches_source. Qed.
+Theorem C12_typeso_dispatch_matches_source : forall o, exists h,
+  Dispatch_oracles_proofs.typeso_handler_of_name (Dispatch.typeso_dispatch (Operators.nt_of_op o)) = Some h /\
+  forall args, Some (types_walk (T o args)) = Dispatch_oracles_proofs.typeso_handler_rule h o (map types_walk args).
+Proof. exact Dispatch_oracles_proofs.typeso_dispatch_matches_source. Qed.
+Theorem C12_sizeo_dispatch_uniform : forall m n n', Dispatch.sizeo_dispatch m n = Dispatch.sizeo_dispatch m n'.
+Proof. exact Dispatch_oracles_proofs.sizeo_dispatch_uniform. Qed.
+Theorem C12_relations_group_matches_source : forall o,
+  is_theory_relation o = Operators.nt_in Operators.G_RELATIONS (Operators.nt_of_op o).
+Proof. exact Dispatch_oracles_proofs.is_theory_relation_is_RELATIONS. Qed.
+Print Assumptions C12_fvo_dispatch_matches_source.
